@@ -33,6 +33,7 @@ type bInput struct {
 	SignReq bool   `json:"signReq"`
 	Alg     string `json:"alg"`
 	Keycfg  string `json:"keycfg"`
+	Keytype string `json:"keytype"`
 }
 type bObs struct {
 	Built        bool   `json:"built"`
@@ -103,7 +104,7 @@ func bindingsSP(in *bInput) (*saml2.SAMLServiceProvider, string) {
 		sp.IdentityProviderSSOURL += idpQuery
 		sp.IdentityProviderSLOURL += idpQuery
 	}
-	ec := in.Alg == "ecdsa-sha256"
+	ec := in.Keytype == "ec"
 	name := in.Keycfg
 	switch in.Keycfg {
 	case "encField":
@@ -241,6 +242,10 @@ func analysePost(in *bInput, sp *saml2.SAMLServiceProvider, body []byte, relay s
 	h, err := pyproj.ParseHTML(body)
 	if err != nil {
 		orch.Fatal("html worker: %v", err)
+	}
+	if !h.UTF8OK {
+		o.Note += " page is not valid UTF-8"
+		return // every check stays false
 	}
 	field := "SAMLRequest"
 	endpoint := sp.IdentityProviderSSOURL
